@@ -131,7 +131,10 @@ const (
 )
 
 // NewStack builds na askers and ns servers. names: a1.., s1..
-func NewStack(kind string, na, ns int) (*Stack, error) {
+// uniq (the behaviour id) makes the keys of this stack its own: a TCP port released by a closed sshswarm of
+// one behaviour may be reused by a listener of another behaviour running in parallel, and only the
+// fingerprint check then keeps an Ask to the closed node from being answered by a stranger.
+func NewStack(kind string, na, ns, uniq int) (*Stack, error) {
 	st := &Stack{Name: kind, Mode: "hub"}
 	total := na + ns
 	name := func(i int) string {
@@ -209,7 +212,8 @@ func NewStack(kind string, na, ns int) (*Stack, error) {
 				m.Open(3)
 				sw = m.Open(1 << 40)
 			}
-			st.cleanup = append(st.cleanup, func() { in.Close() })
+			// the inner swarm is left open at the end: the mux' own loops then stay parked instead of
+			// depending on how the inner swarm reports its closure
 			nd, err := mkNode[memswarm.Addr](name(i), sw, ident)
 			if err := add(i, nd, err); err != nil {
 				return nil, err
@@ -223,7 +227,7 @@ func NewStack(kind string, na, ns int) (*Stack, error) {
 		r := vswarm.New[memswarm.Addr](memswarm.ParseAddr, vswarm.WithQueueLen[memswarm.Addr](256))
 		base := int(quicAddrs.Add(int64(total))) - total
 		for i := 0; i < total; i++ {
-			sw, err := quicswarm.New[memswarm.Addr](r.Create(memswarm.Addr{N: base + i}), x509Key(i))
+			sw, err := quicswarm.New[memswarm.Addr](r.Create(memswarm.Addr{N: base + i}), x509Key(uniq*64+i))
 			if err != nil {
 				return nil, err
 			}
@@ -236,7 +240,7 @@ func NewStack(kind string, na, ns int) (*Stack, error) {
 	case "sshswarm":
 		st.Mode = "stream"
 		for i := 0; i < total; i++ {
-			signer, err := ssh.NewSignerFromSigner(testKey(i))
+			signer, err := ssh.NewSignerFromSigner(testKey(uniq*64 + i))
 			if err != nil {
 				return nil, err
 			}
@@ -264,7 +268,11 @@ func NewStack(kind string, na, ns int) (*Stack, error) {
 				return nil, err
 			}
 			nd.sim = sim
-			nd.setCounter = mbappSetCounter(sw)
+			// test-only setter of p/mbapp/verif_export.go (build tag verif); without the hook the scripts
+			// still run, only with the counters the swarm chooses itself
+			if sc, ok := any(sw).(interface{ VerifSetCounter(uint32) }); ok {
+				nd.setCounter = sc.VerifSetCounter
+			}
 			st.cleanup = append(st.cleanup, func() { sw.Close() })
 		}
 	case "mbapp-mem":
